@@ -1,7 +1,7 @@
 #!/bin/bash
 # runs every registered check once (tier $1, default quick) and prints a one-line summary per check
 tier=${1:-quick}
-cd /verif
+cd "$(dirname "$(readlink -f "$0")")"
 for p in $(python3 -c "import json;print(' '.join(c['property_id'] for c in json.load(open('MANIFEST.json'))['checks']))"); do
   s=$(date +%s)
   out=$(./check $p $tier 2>&1)
